@@ -37,6 +37,8 @@ Engine(hooks=None, poly_names=..., tiny=1e-6)
   .observers   callbacks (node, left, right, kind) invoked on every + - += -= of two plain quantities
   .add_policy  "strict" (default) | "left" (unequal sum takes the left operand's degree, no Mismatch;
                for analyses that compare two runs term by term through `observers`)
+  Q.homog      a checker may set it on an array it passes in: element stores with constant indices are then
+               checked strictly against `deg` (otherwise an inferred degree is not assumed to hold for all rows)
   Q.shape      optional Tup a checker may attach to an array; returned for `<array>.shape`
 Hooks (subclass and override; all optional)
   calls: {dotted name: handler(eng, node, args, kwargs, env) -> value}   pluggable known callables
@@ -226,6 +228,7 @@ class Q(Val):
         self.rows = rows
         self.n = n          # known length along axis 0 (1-D arrays built from python lists), else None
         self.shape = None   # optional Tup returned for `.shape`
+        self.homog = False  # set by a checker: all elements are asserted to share `deg` (strict element stores)
 
     @property
     def is_rows(self):
@@ -386,6 +389,7 @@ def clone(v, memo):
     if isinstance(v, Q):
         c = Q(v.deg, v.num, v.axis, None, v.n)
         c.shape = v.shape
+        c.homog = v.homog
         memo[id(v)] = c
         if v.rows is not None:
             c.rows = {k: clone(x, memo) for k, x in v.rows.items()}
@@ -753,6 +757,8 @@ class _ExprMixin:
         v = self.hooks.global_name(self, n.id, env)
         if v is not None:
             return v
+        if n.id in ("int", "float", "str", "list", "tuple", "dict", "bool", "object", "complex", "set", "type"):
+            return K("type")
         return self.unknown(n, "unbound name %s" % n.id)
 
     def _e_Attribute(self, n, env):
@@ -1145,6 +1151,7 @@ class _SubMixin:
         if isinstance(base, Q):
             if not base.is_rows:
                 r = Q(base.deg, base.num if base.n is not None else None, n=self._sub_len(base.n, parts))
+                r.homog = base.homog
             else:
                 r = self._sub_rows(base, parts, n)
             # x[lo:hi] / x[lo:] along axis 0 is a view: constant-row stores into it are written through
@@ -1268,11 +1275,15 @@ class _SubMixin:
                 cont.set_from(v)
                 return
         lenient = any(k in ("var", "key", "vslice") for k in kinds)
+        if not cont.homog and any(k in ("const", "range") for k in kinds):
+            lenient = True      # an inferred degree is not a promise that all rows share it
         if not cont.is_rows:
             consts = [i for i, p in enumerate(parts) if p[0] in ("const", "range")]
             others = [p[0] for i, p in enumerate(parts) if i not in consts]
             npos = sum(1 for p in parts if p[0] != "new")
-            if cont.deg is ANY and len(consts) == 1 and all(k in ("full", "new") for k in others) \
+            if cont.deg is ANY and not cont.homog and len(consts) >= 1 \
+                    and all(k in ("full", "new") for k in others) \
+                    and all(parts[i][0] == "const" for i in consts[1:]) \
                     and mode in ("assign", "add") and (npos > 1 or parts[consts[0]][0] == "const"
                                                        or parts[consts[0]][2] is not None):
                 axis = sum(1 for p in parts[:consts[0]] if p[0] != "new")
@@ -1651,6 +1662,30 @@ for _n in ("np.einsum", "pyscflib.einsum", "lib.einsum", "np.dot", "pyscflib.dot
     NUMPY_CALLS[_n] = h_product
 for _n in ("np.append", "np.concatenate", "np.hstack", "np.vstack", "np.stack"):
     NUMPY_CALLS[_n] = h_concat
+def h_cho_solve(eng, node, args, kwargs, env):
+    """cho_solve(cho_factor(A), b) -> b / A   (cho_factor(A) is represented by A itself)"""
+    if len(args) < 2:
+        return eng.unknown(node, "cho_solve")
+    a = args[0].items[0] if isinstance(args[0], Tup) and args[0].items else args[0]
+    return eng.mul(args[1], a, node, -1)
+
+
+for _n in ("cholesky", "np.linalg.cholesky", "scipy.linalg.cholesky", "sqrtm"):
+    NUMPY_CALLS[_n] = h_sqrt
+for _n in ("cho_factor", "scipy.linalg.cho_factor"):
+    NUMPY_CALLS[_n] = h_preserve
+for _n in ("cho_solve", "scipy.linalg.cho_solve"):
+    NUMPY_CALLS[_n] = h_cho_solve
+for _n in ("solve_triangular", "scipy.linalg.solve_triangular", "np.linalg.lstsq"):
+    NUMPY_CALLS[_n] = h_solve
+def h_power(eng, node, args, kwargs, env):
+    if len(args) < 2:
+        return eng.unknown(node, "power")
+    return eng.power(args[0], args[1], node)
+
+
+NUMPY_CALLS["np.power"] = h_power
+NUMPY_CALLS["pow"] = h_power
 NUMPY_CALLS.update({
     "np.sqrt": h_sqrt, "math.sqrt": h_sqrt, "np.cbrt": h_cbrt, "np.square": h_square, "np.where": h_where,
     "np.linalg.solve": h_solve, "float": h_preserve, "int": h_preserve, "abs": h_preserve, "sum": h_preserve,
